@@ -105,6 +105,8 @@ def run_sourcemask(case, R):
         with np.errstate(all='ignore'):
             got = np.asarray(f(X, **kw))
     except Exception as e:
+        if not instr.is_library_exception(e):
+            raise
         R.fail(mon, f'{fun}/raised', f'{fun} mask raised {type(e).__name__}: {str(e)[:100]}', **info)
         return
     R.check(mon, np.array_equal(X, Xb), f'{fun}/purity', 'input modified', **info)
@@ -232,6 +234,8 @@ def run_quantile(case, R):
     try:
         got = np.asarray(mm.quantile_mask(X, quantile=q, axis=axis_arg, weight=w))
     except Exception as e:
+        if not instr.is_library_exception(e):
+            raise
         R.fail('C18.quantile', 'quantile/raised/' + ('all-axes' if k == nd else 'some-axes'), f'quantile_mask raised {type(e).__name__} for axis={axis_arg} on shape {shape}: {str(e)[:100]}', **info)
         return
     R.check('C18.quantile', np.array_equal(X, Xb), 'quantile/purity', 'input modified', **info)
@@ -307,6 +311,8 @@ def run_lorenz(case, R):
     try:
         got = np.asarray(mm.lorenz_mask(X, **kw))
     except Exception as e:
+        if not instr.is_library_exception(e):
+            raise
         R.fail('C18.lorenz', 'lorenz/raised', f'lorenz_mask raised {type(e).__name__}: {str(e)[:100]}', **info)
         return
     R.check('C18.lorenz', np.array_equal(X, Xb), 'lorenz/purity', 'input modified', **info)
